@@ -15,7 +15,7 @@ def build_cases(rng, tier):
         opts = r.pick(OPTS)
         if be == 'cxx' and "-CF" in opts:
             opts = ["-Cf"]
-        c = streamprog.gen_stream_case(r, "l%d" % i, {'lineno'} if i % 3 else {'lineno', 'edit'}, backend=be, flex_opts=opts,
+        c = streamprog.gen_stream_case(r, "l%d" % i, ({'lineno', 'trail'} if i % 2 else {'lineno'}) if i % 3 else {'lineno', 'edit', 'trail'}, backend=be, flex_opts=opts,
                                        lineno=(i % 7 != 0))
         cases.append(c)
     return cases
